@@ -634,24 +634,12 @@ Definition function_class (d : fdesc) : res nclass :=
   end.
 
 (* ---- hand-written classes: `class B(Function)` with a `node_function` staticmethod, and
-   `class D(B)` overriding it.  Every class scrapes its OWN signature (the memo functions are
-   keyed by the class).  Class attributes are inherited: a D that declares no `_output_labels`
-   gets B's declared ones -- and, because ScrapesIO._get_output_labels memoises the scraped
-   labels by ASSIGNING `cls._output_labels`, also B's scraped ones when B's outputs were
-   previewed (class previewed or instantiated) before D's.  [base_first] says so; the memo is
-   written as soon as B's input preview succeeds and B's single return statement parses to
-   labels, whatever the validation says afterwards. *)
-Definition inherited_labels (base_first : bool) (b : fdesc) : option (list string) :=
-  match f_declared b with
-  | Some l => Some l
-  | None =>
-      if base_first then
-        match inputs_preview b, parse_output (f_body b) with
-        | Ok _, Ok (Some l) => Some l
-        | _, _ => None
-        end
-      else None
-  end.
+   `class D(B)` overriding it.  Every class scrapes its OWN signature and return statement (the
+   memo functions are keyed by the class; ScrapesIO._get_output_labels returns the scrape without
+   storing it on the class).  Class attributes are inherited: a D that declares no
+   `_output_labels` gets B's declared ones.  Whether B was previewed or instantiated before D
+   ([base_first]) makes no difference. *)
+Definition inherited_labels (base_first : bool) (b : fdesc) : option (list string) := f_declared b.
 Definition derive (base_first : bool) (b d : fdesc) : fdesc :=
   {| f_params := f_params d; f_body := f_body d; f_ret := f_ret d;
      f_declared := match f_declared d with Some l => Some l | None => inherited_labels base_first b end;
